@@ -877,10 +877,24 @@ func (g *PG) callArgs(sc *scope, sig *fnSig, depth int) []Val {
 		}
 	}
 	if len(sig.keys) > 0 && nopt == sig.opt {
+		// keyword arguments are unordered: given in a drawn order, and now and
+		// then one keyword is supplied twice (the later value is the one bound)
+		var given []string
 		for _, k := range sig.keys {
 			if g.pct(50, "keygiven") {
-				a = append(a, S(":"+k), g.Expr(sc, TyInt, depth-1))
+				given = append(given, k)
 			}
+		}
+		if len(given) > 0 && g.pct(8, "dupkey") {
+			given = append(given, given[g.n(0, len(given)-1, "dupwhich")])
+			g.stat("dup-keyword")
+		}
+		for i := len(given) - 1; i > 0; i-- {
+			j := g.n(0, i, "keyorder")
+			given[i], given[j] = given[j], given[i]
+		}
+		for _, k := range given {
+			a = append(a, S(":"+k), g.Expr(sc, TyInt, depth-1))
 		}
 		if g.pct(4, "badkey") {
 			a = append(a, S(":zz"), I(1))
